@@ -14,12 +14,22 @@ from harness import vlib
 from harness.vlib import coq_str
 from harness.props import c13_fam as F
 from harness.props import c13_codec as CD
+from harness.props import c13_doc as DOC
 
-THEOREMS = ["C13_isolation", "C13_default_unaltered", "C13_shared_cache_refuted", "C13_merge_total",
-            "C13_merge_covers_all_options", "C13_merge_strategies", "C13_codec_option_uniform",
-            "C13_twin_partial", "C13_call_dialect_refuted", "C13_union_partial",
-            "C13_union_member_flags_refuted", "C13_options_only_via_resolution", "C13_every_option_read",
-            "C13_option_defaults_consistent", "C13_flag_keyword_default", "C13_twin_strategy_sources"]
+PROPS = [
+    ("props/C13_isolation.vo", ["C13_isolation", "C13_default_unaltered", "C13_shared_cache_refuted"], []),
+    ("props/C13_deep.vo", ["C13_isolation_deep", "C13_call_tree_correct"], []),
+    ("props/C13_merge.vo", ["C13_merge_total", "C13_merge_covers_all_options", "C13_merge_strategies", "C13_codec_option_uniform"],
+     ["K2", "K3", "K13"]),
+    ("props/C13_twin.vo", ["C13_twin_partial", "C13_call_dialect_refuted", "C13_union_partial", "C13_union_member_flags_refuted",
+                           "C13_options_only_via_resolution", "C13_every_option_read", "C13_option_defaults_consistent",
+                           "C13_flag_keyword_default", "C13_twin_strategy_sources"], ["K2", "K3", "K5", "K13", "K13F"]),
+    ("props/C13_forward.vo", ["C13_unpack_flags", "C13_self_forwards_dialect", "C13_flag_sites"], ["K13U"]),
+    ("props/C13_document.vo", ["C13_codec_plans", "C13_merge_is_model", "C13_same_document_silent", "C13_silent_formats",
+                               "C13_same_document_toml", "C13_codec_user_option_wins", "C13_same_document_partial",
+                               "C13_same_document_full_refuted", "C13_cache_names_injective", "C13_method_names_separate"],
+     ["K2", "K11", "K13", "K13C"]),
+]
 
 BOOL_OPTS = ("omit_none", "omit_default", "serialize_by_alias", "namedtuple_as_dict")
 FIVE = ("serialize_by_alias", "namedtuple_as_dict", "omit_none", "omit_default", "no_copy_collections")
@@ -225,7 +235,13 @@ def gen_spec(r) -> dict:
             out.append([f"{prefix}pl", "plain"])      # a plain (non-mixin) dataclass: compiled on demand
         return out
 
-    mixin = "DataClassMessagePackMixin" if r.random() < 0.35 else None
+    mixin = r.choice(["DataClassMessagePackMixin", "DataClassMessagePackMixin", "DataClassORJSONMixin", "DataClassTOMLMixin"]) \
+        if r.random() < 0.45 else None
+    if mixin == "DataClassTOMLMixin":
+        # TOML has no null: omit_none stays on (TOMLDialect) -- no source may switch it off
+        for dsp in dialects.values():
+            if dsp.get("omit_none") is False:
+                dsp["omit_none"] = None
     classes = {
         "Inner": {"base": None, "mixin": mixin, "fields": [["n", "opt"], ["w", "int"]], "config": cfg()},
         "Plain": {"base": None, "plain_dataclass": True, "fields": [["q", "opt"]], "config": cfg()},
@@ -234,8 +250,16 @@ def gen_spec(r) -> dict:
         "G": {"base": "C", "fields": flds("g", 1, 2, 0.0), "config": cfg() if r.random() < 0.25 else None},
         "S": {"base": "P", "fields": flds("s", 1, 2, 0.4), "config": cfg() if r.random() < 0.25 else None},
     }
-    if any(kd == "inner" for f, kd in classes["C"]["fields"]):
-        pass
+    for nm in ("Inner", "Plain"):
+        if r.random() < 0.25:
+            # a nested class that does not take dialects: the call dialect must stop there
+            classes[nm]["config"]["flags"] = [f for f in classes[nm]["config"]["flags"] if f != "dialect"]
+    if mixin == "DataClassTOMLMixin":
+        for c in classes.values():
+            if c.get("config") is not None and c["config"].get("omit_none") is False:
+                c["config"]["omit_none"] = None
+    if r.random() < 0.3:
+        classes["P"]["fields"].append(["pbn", "byname"])      # self-reference by name: compilation of P is postponed
     return {"dialects": dialects, "classes": classes, "order": ["Inner", "Plain", "P", "C", "G", "S"], "flags": flags, "lazy": r.random() < 0.3,
             "base_dialect": base, "mixin": mixin, "cfg_int": r.random() < 0.4}
 
@@ -243,6 +267,9 @@ def gen_spec(r) -> dict:
 def uniform_flag_options(spec: dict) -> bool:
     """A keyword flag is forwarded to nested dataclasses and then overrides THEIR Config value, so 'a flag only adds
     a keyword' is claimed only for families whose classes agree on the Config value of the flag-steered options."""
+    if spec.get("base_dialect") is not None and any(
+            c.get("config") is not None and "dialect" not in c["config"].get("flags", ["dialect"]) for c in spec["classes"].values()):
+        return False      # the classes' own default dialect reaches only the classes with dialect support
     for flag, opt in (("omit_none", "omit_none"), ("by_alias", "serialize_by_alias")):
         if flag in spec.get("flags", []):
             vals = {json.dumps(c["config"].get(opt)) for c in spec["classes"].values() if c.get("config") is not None}
@@ -278,6 +305,10 @@ def covers(spec: dict, di) -> bool:
 def gen_vals(r, fam: F.Family, cname: str, depth: int = 0) -> dict:
     vals = {}
     for f, kind in fam.all_fields(cname):
+        if kind == "byname":
+            if depth < 2 and r.random() < (0.7 if depth == 0 else 0.35):
+                vals[f] = gen_vals(r, fam, "P", depth + 1)
+            continue
         if kind in ("selfopt", "selflist"):
             # recursive positions: nested nodes of the same class, two or three levels deep
             if depth < 2 and r.random() < (0.75 if depth == 0 else 0.4):
@@ -313,6 +344,8 @@ def gen_history(r, spec: dict, n_ops: int) -> list:
             continue
         c = r.choice(defined + (["Inner"] if r.random() < 0.15 else []))
         d = r.choice([None] + hot + hot + list(range(1, k + 1)))
+        if c == "Inner" and "dialect" not in spec["classes"]["Inner"]["config"]["flags"]:
+            d = None
         if d is not None and d not in hot:
             hot.append(d)
         dirs = ["to", "to", "from"] + (["mto", "mto", "mfrom"] if spec.get("mixin") else [])
@@ -322,6 +355,12 @@ def gen_history(r, spec: dict, n_ops: int) -> list:
 
 def has_kind(fam: F.Family, cname: str, kind: str) -> bool:
     return any(k == kind for _f, k in fam.all_fields(cname))
+
+
+def is_deferred(fam: F.Family, cname: str) -> bool:
+    """Is the real compilation of the class's methods put off to the first call: lazy_compilation, or a forward
+    reference that cannot be resolved at class creation (P referring to itself by name)."""
+    return bool(fam.spec.get("lazy")) or (cname == "P" and has_kind(fam, "P", "byname"))
 
 
 def has_inner(fam: F.Family, cname: str):
@@ -392,6 +431,30 @@ def nested_to(raw):
     return out
 
 
+def nested_to_guided(fam: F.Family, cname: str, raw):
+    """like nested_to, but in FIELD order of the classes (the order of the nested calls) instead of the key order of
+    the returned mapping: a format library may reorder keys (tomli_w writes scalars before tables)."""
+    out = []
+
+    def visit(cn, d):
+        if not isinstance(d, dict):
+            return
+        for f, kind in fam.all_fields(cn):
+            if f not in d:
+                continue
+            child = {"inner": "Inner", "plain": "Plain", "byname": "P", "selfopt": cn, "selflist": cn}.get(kind)
+            if child is None:
+                continue
+            vs = d[f] if kind == "selflist" else [d[f]]
+            for v in (vs if isinstance(vs, list) else []):
+                if isinstance(v, dict):
+                    out.append((child, decode_to(v)))
+                    visit(child, v)
+
+    visit(cname, raw)
+    return out
+
+
 def nested_from(res):
     """the same for from_dict: nested dataclass instances that were actually unpacked (a defaulted
     nested instance has undecoded tags)."""
@@ -421,13 +484,36 @@ def coq_tag(t, base=None):
     if t is None:
         return "None"
     c, m = t
-    return f"Some ({c}, {'None' if m == (base or 0) else f'Some {m}'})"
+    return f"Some ({c}, {'None' if m in (0, base) else f'Some {m}'})"
+
+
+def coq_tree(t) -> str:
+    return f"(Node {t[0]} [" + "; ".join(coq_tree(k) for k in t[1]) + "])"
 
 
 def coq_op(o):
     if o[0] == "define":
-        return f"Define {o[1]}"
-    return f"Call {o[1]} ({'None' if o[2] is None else f'Some {o[2]}'})"
+        return f"DDefine {o[1]}"
+    return f"DCall {coq_tree(o[1])} ({'None' if o[2] is None else f'Some {o[2]}'})"
+
+
+def value_tree(fam: F.Family, cname: str, vals: dict):
+    """The instance as a tree of class identities (pre-order = the order of the nested calls): derived from
+    the value specification, not from anything the library returns."""
+    kids = []
+    for f, kind in fam.all_fields(cname):
+        v = vals.get(f)
+        if kind == "inner":
+            kids.append(value_tree(fam, "Inner", v or {}))
+        elif kind == "plain":
+            kids.append(value_tree(fam, "Plain", v or {}))
+        elif kind == "byname" and v is not None:
+            kids.append(value_tree(fam, "P", v))
+        elif kind == "selfopt" and v is not None:
+            kids.append(value_tree(fam, cname, v))
+        elif kind == "selflist" and v:
+            kids.extend(value_tree(fam, cname, x) for x in v)
+    return (CID[cname], kids)
 
 
 class HistoryRun:
@@ -454,7 +540,7 @@ class HistoryRun:
             sp["flags"] = ["dialect"]
             for c in sp["classes"].values():
                 if c.get("config") is not None:
-                    c["config"]["flags"] = ["dialect"]
+                    c["config"]["flags"] = [f for f in c["config"]["flags"] if f == "dialect"]
             self.twins["noflags"] = F.Family(sp, None)
         return self.twins["noflags"]
 
@@ -471,12 +557,12 @@ class HistoryRun:
                 if op[1] == "Plain":
                     continue          # a plain dataclass: nothing is compiled until a class that uses it is
                 for d in self.dirs:
-                    if has_kind(fam, op[1], "plain") and not self.spec.get("lazy"):
+                    if has_kind(fam, op[1], "plain") and not is_deferred(fam, op[1]):
                         # eager class creation compiles the plain nested class on demand (dialect None)
                         self.model[d][0].append(["define", CID["Plain"]])
-                        self.model[d][1].append(None)
+                        self.model[d][1].append([])
                     self.model[d][0].append(["define", CID[op[1]]])
-                    self.model[d][1].append(None)
+                    self.model[d][1].append([])
                 continue
             _, c, direction, di, vals = op
             if vals is None:
@@ -484,20 +570,17 @@ class HistoryRun:
                 op[4] = vals
             tw = self.twin(di)
             mops, mouts = self.model[direction]
-            if self.spec.get("lazy") and has_kind(fam, c, "plain"):
-                # lazy_compilation: the first call in this (format, direction) compiles the class, and with it
+            if is_deferred(fam, c) and has_kind(fam, c, "plain"):
+                # lazy_compilation / postponed: the first call in this (format, direction) compiles the class, and with it
                 # the plain nested class (default method, own cache) -- repeated definitions are idempotent
                 mops.append(["define", CID["Plain"]])
-                mouts.append(None)
+                mouts.append([])
             mp = direction in ("mto", "mfrom")
             if direction in ("to", "mto"):
                 got, gid, raw = F.call_to_dict(fam, c, vals, di, mp)
                 exp, eid, _ = F.call_to_dict(tw, c, vals, None, mp)
-                mops.append(["call", CID[c], di])
-                mouts.append(decode_to(raw))
-                for ncls, tag in nested_to(raw):
-                    mops.append(["call", CID.get(ncls, 4), di])
-                    mouts.append(tag)
+                mops.append(["call", value_tree(fam, c, vals), di])
+                mouts.append([decode_to(raw)] + [tag for _n, tag in nested_to_guided(fam, c, raw)])
                 ok = (got == exp and gid == eid)
                 observed, expected = [got, gid], [exp, eid]
                 flags = self.spec.get("flags", ["dialect"])
@@ -523,23 +606,15 @@ class HistoryRun:
                                          "expected": "a document, not an exception"}
                         break
                     tops, touts = self.model["mto" if mp else "to"]
-                    if self.spec.get("lazy") and has_kind(fam, c, "plain"):
+                    if is_deferred(fam, c) and has_kind(fam, c, "plain"):
                         tops.append(["define", CID["Plain"]])
-                        touts.append(None)
-                    tops.append(["call", CID[c], di])
-                    touts.append(decode_to(doc))
-                    for ncls, tag in nested_to(doc):
-                        tops.append(["call", CID.get(ncls, 4), di])
-                        touts.append(tag)
+                        touts.append([])
+                    tops.append(["call", value_tree(fam, c, vals), di])
+                    touts.append([decode_to(doc)] + [tag for _n, tag in nested_to_guided(fam, c, doc)])
                 got, res = F.call_from_dict(fam, c, doc, di, mp)
                 exp, _ = F.call_from_dict(tw, c, doc, None, mp)
-                mops.append(["call", CID[c], di])
-                mouts.append(decode_from(res))
-                nres = nested_from(res)
-                ndoc = nested_to(doc)
-                for i, (ncls, _t) in enumerate(ndoc):          # one nested from_dict call per nested document
-                    mops.append(["call", CID.get(ncls, 4), di])
-                    mouts.append(nres[i][1] if i < len(nres) else None)
+                mops.append(["call", value_tree(fam, c, vals), di])
+                mouts.append([decode_from(res)] + [tag for _n, tag in nested_from(res)])
                 ok = got == exp
                 observed, expected = got, exp
             self.stats.append((c, direction, di))
@@ -563,8 +638,12 @@ class HistoryRun:
         for name in ("P", "C", "G", "S", "Inner", "Plain"):
             ks = F.own_cache_keys(self.fam, name, direction)
             keys.append("None" if ks is None else "Some [" + "; ".join(map(str, ks)) + "]")
-        return (f"({HIER}, [0; 1; 2; 3; 4; 5], [" + "; ".join(coq_op(o) for o in mops) + "], (["
-                + "; ".join(coq_tag(t, self.spec.get("base_dialect")) for t in mouts) + "], [" + "; ".join(keys) + "]))")
+        base = self.spec.get("base_dialect")
+        nosup = [str(CID[n]) for n, c in self.spec["classes"].items()
+                 if c.get("config") is not None and "dialect" not in c["config"].get("flags", ["dialect"])]
+        outs = "; ".join("[" + "; ".join(coq_tag(t, base) for t in o) + "]" for o in mouts)
+        return (f"({HIER}, [{'; '.join(nosup)}], [0; 1; 2; 3; 4; 5], [" + "; ".join(coq_op(o) for o in mops) + "], (["
+                + outs + "], [" + "; ".join(keys) + "]))")
 
 
 def classify_history_failure(hr: HistoryRun, mm: dict) -> dict:
@@ -573,12 +652,6 @@ def classify_history_failure(hr: HistoryRun, mm: dict) -> dict:
     if mm.get("kind"):
         return {"kind": mm["kind"], "direction": direction}
     sig = {"kind": "call-dialect-differs-from-twin", "direction": direction}
-    obs = mm["observed"][0] if direction in ("to", "mto") else mm["observed"]
-    if (hr.spec.get("lazy") and hr.spec.get("mixin") and direction in ("mto", "mfrom") and di is not None
-            and any(k in ("selfopt", "selflist") for _f, k in hr.fam.all_fields(c))
-            and list(obs) == ["exc", "AttributeError" if direction == "mto" else "InvalidFieldValue"]
-            and not any(o[0] == "call" and o[1] == c and o[2] == direction and o[3] is None for o in hr.ops[:mm["index"]])):
-        return {"kind": "lazy-format-self-first-dialect-call", "direction": direction}
     flags = hr.spec.get("flags", ["dialect"])
     if direction in ("to", "mto") and di is not None and ("omit_none" in flags or "by_alias" in flags):
         dspec = hr.spec["dialects"][str(di)]
@@ -602,7 +675,7 @@ def classify_history_failure(hr: HistoryRun, mm: dict) -> dict:
 
 def history_part(ctx: vlib.Ctx, n_hist=None, tag=""):
     r = ctx.rng
-    n_hist = n_hist or ctx.budget(45, 500)
+    n_hist = n_hist or ctx.budget(45, 320)
     cases, descr = [], []
     kf_hits = 0
     for h in range(n_hist):
@@ -626,7 +699,7 @@ def history_part(ctx: vlib.Ctx, n_hist=None, tag=""):
                 upto = [list(o) for o in ops[:mm["index"] + 1]]
                 what_twin = ("the same family without keyword-flag options" if sig["kind"] == "keyword-flag-changes-default-output"
                              else f"the twin family whose default dialect is D{mm['op'][2]}")
-                ctx.fail(f"{mm['op'][0]}.{ {'to': 'to_dict', 'from': 'from_dict', 'mto': 'to_msgpack', 'mfrom': 'from_msgpack'}[mm['op'][1]] }(dialect=D{mm['op'][2]}) after "
+                ctx.fail(f"{mm['op'][0]}.{ {'to': 'to_dict', 'from': 'from_dict', 'mto': 'to_<format>', 'mfrom': 'from_<format>'}[mm['op'][1]] }(dialect=D{mm['op'][2]}) after "
                          f"{mm['index']} earlier operations differs from {what_twin}",
                          {"entry": "history", "spec": spec, "source": F.family_source(spec), "ops": upto,
                           "observed": mm["observed"], "expected": mm["expected"]}, sig)
@@ -640,8 +713,8 @@ def history_part(ctx: vlib.Ctx, n_hist=None, tag=""):
                     ctx.sample({"history": [o[:4] for o in ops], "dialects": spec["dialects"]})
         finally:
             hr.close()
-    bad, log = vlib.coq_bad_idx("c13_cache" + tag, "DialectCache", "", "Open Scope nat_scope.\n", cases,
-                                "cache_case_ok", "cache_case", shard=250, needs=["theories/DialectCache.vo"])
+    bad, log = vlib.coq_bad_idx("c13_cache" + tag, "DialectCache DialectDeep", "", "Open Scope nat_scope.\n", cases,
+                                "deep_case_ok", "deep_case", shard=250, needs=["theories/DialectDeep.vo"])
     name = "cache-state-machine-vs-real-class-families" + tag
     if bad is None:
         ctx.correspondence(name, len(cases), -1, log)
@@ -682,6 +755,53 @@ def d14_probe(ctx: vlib.Ctx):
             ctx.notes.append("model-stale: finding C13/call-dialect-vs-flag-defaults no longer reproduces")
     finally:
         hr.close()
+
+
+def first_call_probes(ctx: vlib.Ctx):
+    """Systematic: the FIRST call on a freshly created self-referencing class passes a dialect (every format mixin x
+    every way of referring to oneself x both directions, eager/postponed and lazy); then a plain call, then another
+    dialect.  Judged like any history (twin oracle + state machine correspondence)."""
+    cases, descr = [], []
+    for mixin in (None, "DataClassMessagePackMixin", "DataClassORJSONMixin", "DataClassTOMLMixin"):
+        for kind, lazy in (("byname", False), ("byname", True), ("selfopt", True), ("selflist", True), ("selfopt", False)):
+            for direction in (("to", "from") if mixin is None else ("mto", "mfrom")):
+                cfg = {"flags": ["dialect"]}
+                spec = {"dialects": {"1": {"omit_none": True, "serialize_by_alias": True, "int": "dict"},
+                                     "2": {"omit_default": True, "namedtuple_as_dict": True}},
+                        "classes": {"P": {"base": None, "mixin": mixin, "config": dict(cfg),
+                                          "fields": [["x", "int"], ["o", "opt"], ["a", "alias"], ["nxt", kind]]}},
+                        "order": ["P"], "flags": ["dialect"], "base_dialect": None, "mixin": mixin, "lazy": lazy, "cfg_int": False}
+                leaf = {"x": 6, "o": None, "a": 8}
+                nested = {"x": 5, "o": 3, "nxt": [leaf, leaf] if kind == "selflist" else leaf}
+                ops = [["define", "P"], ["call", "P", direction, 1, dict(nested)], ["call", "P", direction, None, dict(nested)],
+                       ["call", "P", direction, 2, dict(nested)], ["call", "P", direction, 1, dict(leaf)]]
+                hr = HistoryRun(spec, ops)
+                try:
+                    mm = hr.run()
+                    ctx.count(("first-call", mixin, kind, lazy, direction))
+                    ctx.hist("first_call_probes", f"{mixin or 'DataClassDictMixin'}:{kind}:{'lazy' if lazy else 'eager'}")
+                    if mm is not None:
+                        sig = classify_history_failure(hr, mm)
+                        ctx.fail(f"first call P.{direction}(dialect=D{mm['op'][2]}) on a fresh {mixin or 'DataClassDictMixin'} class with a "
+                                 f"{kind} field ({'lazy' if lazy else 'eager/postponed'}): result differs from the twin class whose default dialect is that dialect",
+                                 {"entry": "history", "spec": spec, "source": F.family_source(spec), "ops": ops[:mm["index"] + 1],
+                                  "observed": mm["observed"], "expected": mm["expected"]}, sig)
+                    else:
+                        for d in hr.dirs:
+                            cases.append(hr.cache_case(d))
+                            descr.append({"direction": d, "spec": spec, "ops": ops})
+                finally:
+                    hr.close()
+    bad, log = vlib.coq_bad_idx("c13_probe", "DialectCache DialectDeep", "", "Open Scope nat_scope.\n", cases,
+                                "deep_case_ok", "deep_case", shard=250, needs=["theories/DialectDeep.vo"])
+    name = "cache-state-machine-vs-first-call-probes"
+    if bad is None:
+        ctx.correspondence(name, len(cases), -1, log)
+        ctx.not_shown("correspondence " + name, log)
+    else:
+        ctx.correspondence(name, len(cases), len(bad), "; ".join(cases[i][:300] for i in bad[:2]))
+        if bad:
+            ctx.not_shown("correspondence " + name, f"{len(bad)} probes: {cases[bad[0]][:1200]} || {json.dumps(descr[bad[0]], default=str)[:1500]}")
 
 
 UNION_SRC = r'''
@@ -803,31 +923,45 @@ def union_part(ctx: vlib.Ctx):
 
 def run(ctx: vlib.Ctx):
     ctx.coverage["rule"] = (
-        "histories: random class families (P, C(P), G(C), S(P), nested Inner; ADD_DIALECT_SUPPORT; 2-4 dialects named alike with "
-        "random omit_none/omit_default/serialize_by_alias/namedtuple_as_dict/no_copy_collections/serialization_strategy) x random "
-        "interleavings of class definitions and to_dict/from_dict calls with dialects from {None, D1..Dk}; distinct = (history, class, "
-        "direction, dialect). codecs: 6 formats x all 2^6 settings (5 options set/unset x strategy map) x dataclass shapes x values; "
-        "distinct = (format, option vector, shape, value). merge: random option namespaces / strategy maps.")
-    ctx.theorems("props/C13_dialects.vo", THEOREMS, kernels=["K2", "K3", "K5", "K13", "K13F"])
+        "histories: random class families (P, C(P), G(C), S(P), nested mixin Inner, nested plain dataclass Plain; dict / MessagePack / "
+        "ORJSON / TOML mixins; eager, lazy and postponed compilation; Self, by-name and list recursion; classes with and without "
+        "ADD_DIALECT_SUPPORT; keyword-flag options; own Config.dialect; 2-4 dialects named alike with random options and one- or "
+        "two-directional strategies) x random interleavings of class definitions and to_*/from_* calls with dialects from "
+        "{None, D1..Dk}; distinct = (history, class, direction, dialect). documents: random dataclass shapes x Config options x "
+        "dialects x user strategy maps x 6 formats against the Coq document model; codecs: 6 formats x all 2^6 option settings x "
+        "shapes x values; distinct = (format, option vector, shape, value). merge: random option namespaces / strategy maps.")
+    for target, names, kernels in PROPS:      # one file per theorem family: a broken proof marks only its own family
+        ctx.theorems(target, names, kernels=kernels)
     ctx.trusted += [
-        "DialectCache.step: model of the generated prologue/dispatch of add_(un)pack_method (attribute lookup through the MRO, "
-        "own-namespace creation, dict item assignment); compared with real class families on every run",
+        "DialectCache.step / DialectDeep.call_tree: model of the generated prologue/dispatch of add_(un)pack_method (attribute lookup "
+        "through the MRO, own-namespace creation, dict item assignment, nested calls in field order, forwarding of the dialect keyword); "
+        "compared with real class families on every run",
         "DialectMerge.merge_strategies: hand model of the two strategy loops of Dialect.merge; compared with Dialect.merge on every run",
+        "DialectDoc: document model = OptProj.to_dict_model (C08) + codec_strategies/choice (hand model of the first-hit strategy lookup "
+        "at the default-dialect level); compared with the mapping every real Encoder hands to its format library on every run",
         "DialectTwin.call_effective / union_forward: hand models of keyword-default forwarding and of the union branch order",
-        "tools/kernels/k13_dialect_attrs.py: AST extraction of the attribute names of class Dialect and of the merge key tuple",
+        "tools/kernels/k13*.py: AST extraction (class Dialect attributes, merge key tuple, option read sites, keyword defaults, "
+        "unpack flags and flag call sites, codec plans, format dialect tables, cache name templates); K13C's tables are compared "
+        "with the running classes on every run",
         "format libraries json, orjson, yaml, msgpack, tomli_w/tomllib as parsers of the encoder output",
     ]
     ctx.assumptions += [
-        "twin class = same source with Config.dialect = D on every class that enables ADD_DIALECT_SUPPORT; the original classes "
-        "have no Config.dialect of their own (a call dialect is layered over Config.dialect, not substituted: DialectTwin.layered_witness)",
+        "twin class = same source with Config.dialect = D on every class that enables ADD_DIALECT_SUPPORT; where the classes have a "
+        "Config.dialect of their own the twin is compared only if D says something wherever that one does (a call dialect is layered "
+        "over Config.dialect, not substituted: DialectTwin.layered_witness)",
         "TOML: a dialect that sets omit_none=False together with a None field value is outside the domain (TOML has no null; "
         "the encoder raises TypeError loudly)",
+        "C13_same_document_partial: documents are equal as Python mappings when no field is left to a format-native entry "
+        "(native_free); at format-native types the formats differ by construction (C13_same_document_full_refuted) and meet only "
+        "after the format library renders the value -- that part is decided by the codec sweep (oracle), not by proof",
     ]
     k2_validation(ctx)
     strategy_corr(ctx)
     history_part(ctx)
     d14_probe(ctx)
+    first_call_probes(ctx)
     union_part(ctx)
+    DOC.run_all(ctx)
     CD.codec_part(ctx)
     if ctx.tier == "thorough":
         coqchk(ctx)
@@ -840,13 +974,22 @@ def run(ctx: vlib.Ctx):
 
 
 def coqchk(ctx: vlib.Ctx):
-    """Second opinion of the independent checker on the compiled property file (thorough tier)."""
-    rc, log, secs = vlib.run(["timeout", "600", "coqchk", "-silent", "-o", "-Q", "theories", "Verif", "-Q", "gen", "VerifGen",
-                              "-Q", "props", "VerifProps", "VerifProps.C13_dialects"], cwd=vlib.COQ, timeout=630)
-    ok = rc == 0 and "Axioms: <none>" in log and "type-in-type: <none>" in log
-    ctx.obligation("coqchk VerifProps.C13_dialects (no axioms, no type-in-type, no unsafe fixpoints)", ok, log[-600:])
-    if not ok:
-        ctx.not_shown("coqchk VerifProps.C13_dialects", log[-1500:])
+    """Second opinion of the independent checker on the compiled property files (thorough tier), run side by side."""
+    import subprocess
+    procs = []
+    for target, _names, _k in PROPS:
+        lib = "VerifProps." + os.path.basename(target)[:-3]
+        p = subprocess.Popen(["timeout", "900", "coqchk", "-silent", "-o", "-Q", "theories", "Verif", "-Q", "gen", "VerifGen",
+                              "-Q", "props", "VerifProps", lib], cwd=vlib.COQ, stdout=subprocess.PIPE, stderr=subprocess.STDOUT, text=True)
+        procs.append((lib, p))
+    for lib, p in procs:
+        log = p.communicate()[0]
+        ok = p.returncode == 0 and "Axioms: <none>" in log and "type-in-type: <none>" in log
+        ctx.obligation(f"coqchk {lib} (no axioms, no type-in-type, no unsafe fixpoints)", ok, log[-600:])
+        if ok:
+            ctx.trusted.append(f"coqchk -o {lib}: Axioms: <none>")
+        else:
+            ctx.not_shown(f"coqchk {lib}", log[-1500:])
 
 
 def replay(rep: dict) -> int:
